@@ -23,7 +23,9 @@ def plan(which, rng, thorough=True):
         runs += [["tcp", str(rng.randrange(1, 10**6)), "4", "150000", "1", "0"], ["tcp", str(rng.randrange(1, 10**6)), "4", "150000", "0", "3"],
                  ["udp", str(rng.randrange(1, 10**6)), "4", "1"], ["udpq", str(rng.randrange(1, 10**6)), "4"], ["gone", "4"],
                  # a datagram that arrives at 0.8 T of a timed blocking receive under a stream of handled signals must be delivered
-                 ["sigdata", "4", "500"]]
+                 ["sigdata", "4", "500"],
+                 # a blocking connect interrupted once while the handshake is pending (the retry is answered EALREADY)
+                 ["eintrconn", "4"]]
     elif which == "C09":
         for fam in (4, 6):
             runs.append(["udpq", str(rng.randrange(1, 10**6)), str(fam)])
@@ -36,6 +38,7 @@ def plan(which, rng, thorough=True):
             for storm in (1, 0):
                 runs.append(["udp", str(rng.randrange(1, 10**6)), str(fam), str(storm)])
             runs.append(["gone", str(fam)])
+            runs.append(["eintrconn", str(fam)])
     elif which == "C10" and not thorough:
         # quick tier: descriptor flags and the closed state on the real kernel, after accepts that failed for a real reason (< 1 s)
         runs += [["flags", "4"], ["flags", "6"]]
@@ -52,7 +55,7 @@ def plan(which, rng, thorough=True):
 def run_real(chk, cfg, which, thorough=True):
     """returns True when a concrete failure was reported"""
     try:
-        exe = pv.build_harness("socket_real", cfg, ["socket_real.c"], repo_files=None, san="asan")
+        exe = pv.build_harness("socket_real", cfg, ["socket_real.c"], repo_files=None, san="asan", link=["-Wl,--wrap=connect"])
     except pv.BuildError as e:
         chk.violation(str(e), "real-kernel harness does not build against the current source", no_input=True, suffix="txt")
         return False
